@@ -395,7 +395,9 @@ def late_programs(draw):
     delays = [draw(st.sampled_from([0.0, 0.0, 0.03, 0.15, 0.25])) for _ in range(n)]
     if not any(d > 0.1 for d in delays):
         delays[draw(st.integers(0, n - 1))] = 0.15
-    return {"threads": threads, "delays": delays, "schedule": draw(st.lists(st.integers(0, 5), min_size=1, max_size=40))}
+    return {"threads": threads, "delays": delays, "schedule": draw(st.lists(st.integers(0, 5), min_size=1, max_size=40)),
+            # the terminal is already in no-echo mode when the queries are made (a full-screen program is running)
+            "echo_off": draw(st.booleans())}
 
 
 def check_late_replies(c, rec):
@@ -414,6 +416,13 @@ def check_late_replies(c, rec):
     T.reset({"delays": list(c["delays"])})
     order = []  # ids in the order their requests reach the terminal
     results = []
+    import termios
+
+    attr0 = termios.tcgetattr(U._tty_fd)
+    if c.get("echo_off"):
+        noecho = termios.tcgetattr(U._tty_fd)
+        noecho[3] &= ~termios.ECHO
+        termios.tcsetattr(U._tty_fd, termios.TCSANOW, noecho)
 
     @U.lock_tty
     def ask(pid):
@@ -441,9 +450,15 @@ def check_late_replies(c, rec):
             setattr(U, k, v)
         T.idle(1.0)
         left = T.unread_bytes()
+        attr1 = termios.tcgetattr(U._tty_fd)
+        termios.tcsetattr(U._tty_fd, termios.TCSANOW, attr0)
     if err:
         raise err
-    what = f"threads={c['threads']} delays={c['delays']} schedule={c['schedule']}"
+    what = f"threads={c['threads']} delays={c['delays']} schedule={c['schedule']} echo_off={c.get('echo_off')}"
+    if bool(attr1[3] & termios.ECHO) == bool(c.get("echo_off")):
+        raise Violation(f"input echo is {'on' if attr1[3] & termios.ECHO else 'off'} after the queries, it was "
+                        f"{'off' if c.get('echo_off') else 'on'} before [{what}]", {"kind": "echo_not_restored"})
+    rec.label("echo_off_before" if c.get("echo_off") else "echo_on_before")
     for t in sched.threads:
         if t.exc is not None:
             raise Violation(f"thread {t.name} raised {type(t.exc).__name__}: {t.exc} [{what}]", {"kind": "thread_exception"})
